@@ -116,9 +116,7 @@ func (w *World) sessReqJSON(p *pfcpx.Peer, r *SessReq, seq uint32) map[string]in
 
 // settle waits for the datapath to go quiet and a short silence window for further datagrams.
 func (w *World) settle(p *pfcpx.Peer, got bool, extraQuiet time.Duration) {
-	if w.Cfg.Datapath != "up4" {
-		w.Bess.WaitIdle(w.Quiet/2+extraQuiet, 3*time.Second)
-	}
+	w.dpIdle(w.Quiet/2+extraQuiet, 3*time.Second)
 
 	time.Sleep(w.Quiet + extraQuiet)
 }
@@ -215,12 +213,7 @@ func (w *World) exchange(p *pfcpx.Peer, kind string, req map[string]interface{},
 	}
 
 	ev := map[string]interface{}{"ev": "req", "kind": kind, "peer": p.Name, "req": req, "resps": resps}
-	if w.Cfg.Datapath != "up4" {
-		t := w.Bess.Snapshot()
-		ev["dp"] = w.dpJSON()
-		ev["cmds"] = t.Cmds
-		ev["errs"] = t.Errs
-	}
+	w.dpObs(ev)
 
 	var programmedAt time.Time
 
